@@ -122,8 +122,10 @@ PENDING = {}
 BRIDGE = {
     "C01": "ActionEvents::new, ActionData::update",
     "C02": "ActionEvents::new",
-    "C03": "TriggerTracker::{new, state, overwrite, combine (flags, conversion)}, the flag update of apply_conditions, ActionValue::*",
-    "C04": "TriggerTracker::{overwrite, combine (flags, conversion)}, ActionValue::*",
+    "C03": "TriggerTracker::{new, state, overwrite, combine (flags, conversion)}, apply_conditions and apply_modifiers (the loops over the trait objects, as folds over arbitrary machines), ActionValue::*",
+    "C04": "TriggerTracker::{overwrite, combine (flags, conversion)}, the merge step (match on cmp) of ActionBind::update, ActionValue::*",
+    "C05": "the merge step of ActionBind::update (consume buffer: appended on an equal state, restarted on a more significant one)",
+    "C12": "TriggerTracker::apply_modifiers and apply_conditions (the loops over the trait objects: each object invoked exactly once, in order, no early out)",
     "C10": "ActionData::update",
     "C11": "ConditionTimer::{update, reset, duration}, evaluate of Press, JustPress, Release, Hold, HoldAndRelease, Tap, Pulse",
     "C13": "evaluate / kind of Chord and BlockBy, apply of AccumulateBy",
